@@ -63,7 +63,7 @@ func genPerm(t *rapid.T, n int) []int {
 
 func TestPropSameContent(t *testing.T) {
 	rapid.Check(t, func(t *rapid.T) {
-		tb := gen.GenTable(t, gen.TableOpts{MaxCols: 5, MaxRows: evid.Scale(600, 800), Boundary: true, ForceUnique: true, MaxBig: 2}, "t")
+		tb := gen.GenTable(t, gen.TableOpts{MaxCols: 5, MaxRows: evid.Scale(600, 800), Boundary: true, ForceUnique: true, MaxBig: 2, DupNames: true}, "t")
 		c := Case{Table: tb, Cfg1: ingestx.GenConfig(t, "c1"), Cfg2: ingestx.GenConfig(t, "c2"), Perm: genPerm(t, len(tb.Rows))}
 		subSame.Check(t, c)
 	})
